@@ -40,13 +40,46 @@ def main():
                     args[k] = array.array('d', args[k])
                 elif kind == 'tuple':
                     args[k] = tuple(args[k])
+                elif kind == 'ndarray':
+                    import numpy as np
+                    args[k] = np.array(args[k], dtype=np.double)
+                elif kind == 'list-ndarray':
+                    import numpy as np
+                    args[k] = [np.array(x, dtype=np.double) for x in args[k]]
+                elif kind == 'list-array':
+                    args[k] = [array.array('d', x) for x in args[k]]
+            if req.get('omp_threads'):
+                import ctypes
+                ctypes.CDLL('libgomp.so.1').omp_set_num_threads(int(req['omp_threads']))
+            if req.get('cpu_count'):
+                n_cpu = int(req['cpu_count'])
+                os.cpu_count = lambda: n_cpu
+                if hasattr(os, 'process_cpu_count'):
+                    os.process_cpu_count = lambda: n_cpu
             kwargs = dict(req.get('kwargs', {}))
             if 'inner_dist' in kwargs:
                 kwargs['inner_dist'] = vinner.lib_inner(kwargs['inner_dist'])
+            if 'block' in kwargs and kwargs['block'] is not None:
+                bl = kwargs['block']
+                kwargs['block'] = tuple([tuple(bl[0]), tuple(bl[1])] + list(bl[2:]))
             if isinstance(kwargs.get('psi'), dict):
                 p = kwargs['psi']
                 kwargs['psi'] = tuple(p['v']) if p['form'] == 'tuple' else list(p['v'])
+            reps = int(req.get('repeat', 1))
             v = fn(*args, **kwargs)
+            if reps > 1:
+                import struct
+
+                def bits(x):
+                    if hasattr(x, 'tolist'):
+                        x = x.tolist()
+                    elif isinstance(x, array.array):
+                        x = list(x)
+                    return json.dumps(x)
+                b0 = bits(v)
+                for _ in range(reps - 1):
+                    if bits(fn(*args, **kwargs)) != b0:
+                        raise AssertionError('repeated call returned a different result')
             if hasattr(v, 'tolist'):
                 v = v.tolist()
             elif isinstance(v, array.array):
